@@ -682,6 +682,26 @@ func ruleInvalidate(c *Ctx) {
 						why = "inside a loop that may run zero times"
 					}
 					for _, cc := range controlCondsPol(b) {
+						// a saved file's cache entry is dropped whether or not the document is open in the editor and
+						// whether or not the file could be read just now
+						if role == "didSave" {
+							withCtl := map[ssa.Value]bool{}
+							sliceWithControl(cc.Cond, 0, withCtl) // a verdict helper (GetDocument) decides by its tests
+							for v := range withCtl {
+								call, ok := v.(*ssa.Call)
+								if !ok {
+									continue
+								}
+								if op, isSM := syncMapOp(call); isSM && op == "Load" {
+									okCall = false
+									why = "only depending on whether the saved document is open in the editor (a lookup in the document store)"
+								}
+								if cal := call.Call.StaticCallee(); cal != nil && cal.Pkg != nil && cal.Pkg.Pkg.Path() == "os" {
+									okCall = false
+									why = "only depending on the outcome of os." + cal.Name()
+								}
+							}
+						}
 						for v := range backSlice(cc.Cond) {
 							var ft types.Type
 							switch x := v.(type) {
@@ -769,4 +789,9 @@ func ruleInvalidate(c *Ctx) {
 		c.check(locks && mutates, "G-INVALIDATE", c.P.declName(fd), "drops cache entries under the write lock", fd.Pos(),
 			"cache entry is deleted / cache replaced under the loader's lock", "the method does not delete from (or replace) the cache under the loader's write lock")
 	}
+}
+
+func isEmptyStringConst(v ssa.Value) bool {
+	k, ok := v.(*ssa.Const)
+	return ok && k.Value != nil && k.Value.Kind() == constant.String && constant.StringVal(k.Value) == ""
 }
